@@ -181,6 +181,36 @@ func (r *relayItems) Delete(id uint32) (relayItem, bool) {
 	return item, !item.tomb
 }
 
+// deleteCall is Delete for a caller that looked the item up earlier (Get) and let go of
+// the lock in between: it removes the item only if it still belongs to the relayed call
+// the caller looked up. A frame path holds its copy of the item while it forwards the
+// frame; meanwhile another goroutine may have completed that call (a cancel relayed while
+// the final response is being forwarded) and the peer may have re-used the id: the item
+// now found under the id is a different, live call whose timer is active and which must
+// be left alone. Calls are told apart by the id they were given on the destination
+// connection, which is never re-used.
+func (r *relayItems) deleteCall(id uint32, lookedUp relayItem) (relayItem, bool) {
+	r.Lock()
+	item, ok := r.items[id]
+	if !ok {
+		r.Unlock()
+		r.logger.WithFields(LogField{"id", id}).Warn("Attempted to delete non-existent relay item.")
+		return item, false
+	}
+	if item.remapID != lookedUp.remapID || item.destination != lookedUp.destination {
+		r.Unlock()
+		return relayItem{}, false
+	}
+	delete(r.items, id)
+	if item.tomb {
+		r.tombs--
+	}
+	r.Unlock()
+
+	item.timeout.Release()
+	return item, !item.tomb
+}
+
 // Entomb sets the tomb bit on a relayItem and schedules a garbage collection. It
 // returns the entombed item, along with a bool indicating whether we completed
 // a relayed call.
@@ -399,7 +429,7 @@ func (r *Relayer) Receive(f *Frame, fType frameType) (sent bool, failureReason s
 	}
 
 	if finished {
-		r.finishRelayItem(items, id)
+		r.finishRelayItem(items, id, item)
 	}
 
 	return true, ""
@@ -628,7 +658,7 @@ func (r *Relayer) handleNonCallReq(f *Frame) (shouldRelease bool, _ error) {
 	}
 
 	if finished {
-		r.finishRelayItem(items, originalID)
+		r.finishRelayItem(items, originalID, item)
 	}
 	return _relayNoRelease, nil
 }
@@ -701,8 +731,8 @@ func (r *Relayer) failRelayItem(items *relayItems, id uint32, reason string, err
 	r.decrementPending()
 }
 
-func (r *Relayer) finishRelayItem(items *relayItems, id uint32) {
-	item, ok := items.Delete(id)
+func (r *Relayer) finishRelayItem(items *relayItems, id uint32, lookedUp relayItem) {
+	item, ok := items.deleteCall(id, lookedUp)
 	if !ok {
 		return
 	}
